@@ -4,15 +4,29 @@ go 1.24
 
 toolchain go1.24.0
 
-require github.com/emitter-io/emitter v0.0.0
+require (
+	github.com/emitter-io/emitter v0.0.0
+	github.com/kelindar/binary v1.0.19
+)
 
 require (
+	github.com/cespare/xxhash/v2 v2.3.0 // indirect
+	github.com/coocood/freecache v1.2.4 // indirect
 	github.com/emitter-io/address v1.0.1 // indirect
 	github.com/emitter-io/config v1.0.0 // indirect
 	github.com/golang/snappy v0.0.4 // indirect
-	github.com/kelindar/binary v1.0.19 // indirect
+	github.com/tidwall/btree v1.7.0 // indirect
+	github.com/tidwall/buntdb v1.3.2 // indirect
+	github.com/tidwall/gjson v1.18.0 // indirect
+	github.com/tidwall/grect v0.1.4 // indirect
+	github.com/tidwall/match v1.1.1 // indirect
+	github.com/tidwall/pretty v1.2.1 // indirect
+	github.com/tidwall/rtred v0.1.2 // indirect
+	github.com/tidwall/tinyqueue v0.1.1 // indirect
+	github.com/weaveworks/mesh v0.0.0-20191105120815-58dbcc3e8e63 // indirect
 	golang.org/x/crypto v0.33.0 // indirect
 	golang.org/x/net v0.35.0 // indirect
+	golang.org/x/sys v0.30.0 // indirect
 	golang.org/x/text v0.22.0 // indirect
 )
 
